@@ -2,6 +2,7 @@ import GB.C17.Proofs
 import GB.C17.Model2
 import GB.C12.Props
 import GB.C14.Props
+import GB.Generated.Facts
 import GB.C03.Props
 import GB.C04.Props
 import GB.C08.Props
@@ -940,3 +941,51 @@ example : mdAppendGo none [97] [98] = .error .nilMapWrite := by decide
 example : sockRun .gwsStream .absent [.message] = .error .typeAssertion := by decide
 example : sockRun .gwsStream .absent [.store .grpcWebSocketStream, .message] = .error .typeAssertion := by decide
 example : iterateGo (some [true, false]) = .error .typeAssertion := by decide
+
+/-! ### hang side -/
+
+/-- Regenerated from the AST of package webbridge: every incoming-stream `Recv` gives up when the call's context
+    ends — the two body readers run inside `withCtx(ctx, …)`, the two WebSocket ones select on `ctx.Done()` — the request
+    body is read only by the two lower-case `recv` helpers, and no `recv` helper call, body read or channel receive on
+    the handler path escapes those guards. -/
+theorem C17_facts_recv_guarded :
+    GB.Generated.c17RecvGuards =
+      [("gRPCWebSocketStream.Recv", "select"), ("gRPCWebStream.Recv", "withCtx"), ("gwsStream.Recv", "select"), ("httpStream.Recv", "withCtx")] ∧
+    GB.Generated.c17BodyReaders = ["gRPCWebStream.recv", "httpStream.recv"] ∧
+    GB.Generated.c17UnguardedReads = [] := by decide
+
+/-- Soundness of the judgement of the raw TCP cases: an accepted case has a handler that returned while the client was
+    still connected and silent, a complete response with a status in range, for gRPC-Web exactly one trailer frame
+    (last) with a grpc-status on a 200, and no 5xx for a request target without a path. -/
+theorem C17_accepted_tcp (c : TcpCase) (h : tcpViolations c = []) :
+    c.returned = true ∧ 200 ≤ c.status ∧ c.status < 600 ∧ c.bodyDone = true ∧
+    (c.gwct = true → c.status = 200 ∧ c.gwFramesOK = true ∧ c.trailers = 1 ∧ c.grpcStatus.isSome = true) ∧
+    (c.idle = false → c.status < 500) := by
+  unfold tcpViolations at h
+  simp only [List.append_eq_nil_iff] at h
+  obtain ⟨h1, h2⟩ := h
+  have hret : c.returned = true := by
+    cases hr : c.returned <;> simp [hr] at h1 ⊢
+  cases hs0 : (c.status == 0) with
+  | true => simp [hs0] at h2
+  | false =>
+    simp only [hs0, Bool.false_eq_true, ↓reduceIte, List.append_eq_nil_iff] at h2
+    obtain ⟨⟨⟨h3, h4⟩, h5⟩, h6⟩ := h2
+    have hrange : (200 ≤ c.status && c.status < 600) = true := by
+      cases hr : (200 ≤ c.status && c.status < 600) <;> simp [hr] at h3 ⊢
+    have hdone : c.bodyDone = true := by
+      cases hr : c.bodyDone <;> simp [hr] at h4 ⊢
+    simp only [Bool.and_eq_true, decide_eq_true_eq] at hrange
+    refine ⟨hret, hrange.1, hrange.2, hdone, ?_, ?_⟩
+    · intro hg
+      simp only [hg, ↓reduceIte, List.append_eq_nil_iff] at h5
+      obtain ⟨⟨⟨a, b⟩, c1⟩, d⟩ := h5
+      refine ⟨?_, ?_, ?_, ?_⟩
+      · cases hr : (c.status != 200) <;> simp [hr] at a; simpa using hr
+      · cases hr : c.gwFramesOK <;> simp [hr] at b ⊢
+      · cases hr : (c.trailers != 1) <;> simp [hr] at c1; simpa using hr
+      · cases hr : c.grpcStatus.isNone <;> simp [hr] at d; cases hq : c.grpcStatus <;> simp [hq] at hr ⊢
+    · intro hi
+      cases hr : (decide (500 ≤ c.status)) with
+      | true => simp [hi, hr] at h6
+      | false => simpa using hr
